@@ -357,6 +357,9 @@ def load_known_findings():
         return json.load(f)
 
 
+CURRENT = None      # the Check of this process (bin/check reports its violations if the run ends in a ModelError)
+
+
 class Check:
     """Bookkeeping of one check run: evidence counters, violations, known findings."""
 
@@ -371,6 +374,8 @@ class Check:
         self.known_hit = []
         kf = load_known_findings()
         self.known = {f["key"]: f for f in kf.get("findings", []) if f.get("property") == pid}
+        global CURRENT
+        CURRENT = self
 
     def add_tlc(self, name, res):
         self.cov["states"] += res.distinct
